@@ -335,6 +335,42 @@ example :
     g.lin.map (·.1) = [0, 1, 1, 2, 0] ∧
     g.threads.map (fun th => th.prog.length) = [0, 0, 0] := by decide
 
+/-! ### 2b. The concrete container operations: permutation-only and read-only ones -/
+
+theorem insertSorted_perm (x : Int) (l : List Int) : (insertSorted x l).Perm (x :: l) := by
+  induction l with
+  | nil => exact List.Perm.refl _
+  | cons y ys ih =>
+    simp only [insertSorted]
+    split
+    · exact List.Perm.refl _
+    · exact (List.Perm.cons y ih).trans (List.Perm.swap x y ys)
+
+theorem foldl_insertSorted_perm (l acc : List Int) :
+    (l.foldl (fun acc x => insertSorted x acc) acc).Perm (l ++ acc) := by
+  induction l generalizing acc with
+  | nil => exact List.Perm.refl _
+  | cons x xs ih =>
+    simp only [List.foldl_cons, List.cons_append]
+    refine (ih _).trans ?_
+    exact (List.Perm.append_left xs (insertSorted_perm x acc)).trans List.perm_middle
+
+/-- `l.sort()` only permutes: the multiset of elements is unchanged. -/
+theorem sort_only_permutes (l : List Int) : (LOp.sort.sem l).1.Perm l := by
+  simpa [LOp.sem, sortInts] using foldl_insertSorted_perm l []
+
+/-- `l.reverse()` only permutes. -/
+theorem reverse_only_permutes (l : List Int) : (LOp.reverse.sem l).1.Perm l := by
+  simp [LOp.sem]
+
+/-- Read operations (size, get, contains, snapshot = to_tuple / copy / display / `+`, ==, …) leave
+the container as it is; by `no_torn_read` they observe exactly one state. -/
+theorem list_read_keeps_data (o : LOp) (l : List Int) (h : o.isWrite = false) : (o.sem l).1 = l := by
+  cases o <;> simp_all [LOp.isWrite, LOp.sem]
+
+theorem map_read_keeps_data (o : MOp) (m : Assoc) (h : o.isWrite = false) : (o.sem m).1 = m := by
+  cases o <;> simp_all [MOp.isWrite, MOp.sem]
+
 /-! ### 3. No deadlock when an operation holds at most one lock at a time -/
 
 /-- One cell (the model of Part 2): in every reachable state, if some thread has not finished then
